@@ -338,7 +338,19 @@ pub fn describe(q: &Query, t: &Table, layout: &Layout) -> String {
             Expr::Not(x) => format!("NOT {}", go(x, col, t, layout, None)),
             Expr::IsNull(x) => format!("{} IS NULL", go(x, col, t, layout, None)),
             Expr::IsNotNull(x) => format!("{} IS NOT NULL", go(x, col, t, layout, None)),
-            Expr::Like(x, _) => format!("{} LIKE p", go(x, col, t, layout, None)),
+            Expr::Like(x, p) => {
+                // pattern classes the engine's LIKE-to-regex rewriting is known to mishandle
+                let cls = if !p.is_empty() && p.iter().all(|c| *c == b'%') {
+                    "[%only]"
+                } else if p.first() == Some(&b'_') {
+                    "[lead_]"
+                } else if p.windows(2).any(|w| (w[0] == b'%' && w[1] == b'_') || (w[0] == b'_' && w[1] == b'_') || (w[0] == b'_' && w[1] == b'%')) {
+                    "[adjacent-wildcards]"
+                } else {
+                    ""
+                };
+                format!("{} LIKE p{}", go(x, col, t, layout, None), cls)
+            }
         }
     }
     let d = |e: &Expr| go(e, &col, t, layout, None);
@@ -392,7 +404,7 @@ pub fn describe(q: &Query, t: &Table, layout: &Layout) -> String {
 pub fn outcome_attributed(table: &Table, layout: &Layout, q: &Query, j: &Judged, cache: &mut Option<Db>, extra_why: &str) -> Outcome {
     let mut o = outcome(table, q, j, extra_why);
     if j.verdict.is_err() {
-        let (mq, mj) = minimize(table, layout, q, cache, 40);
+        let (mq, mj) = minimize(table, layout, q, cache, 30);
         let reason = mj.verdict.as_ref().err().cloned().unwrap_or_default();
         let tag = reason.split(':').next().unwrap_or("mismatch").to_string();
         let failure = match &mj.out {
